@@ -151,10 +151,13 @@ func a1RawText(steps []*StepVars) *smt.Term {
 // LoopRun bundles the extracted relation for one harness variant.
 type LoopRun struct {
 	InputSuffix string // appended to every witness input before it is replayed
-	In          *sym.Interp
-	Steps       *Steps
-	T           *TRel
-	PS          *PolicySyms
+	// Sub, when set, yields a substitution applied to every query (and to the
+	// terms whose values are requested) before it is sent.
+	Sub   func(full *smt.Term) map[*smt.Term]*smt.Term
+	In    *sym.Interp
+	Steps *Steps
+	T     *TRel
+	PS    *PolicySyms
 }
 
 func (c *Ctx) loopSetup(ev *Evidence, harness string, maxAttrs int, names ...string) (*LoopRun, error) {
@@ -173,7 +176,11 @@ func (c *Ctx) loopSetup(ev *Evidence, harness string, maxAttrs int, names ...str
 			return nil, fmt.Errorf("engine cannot execute a path of the token loop: %s", o.Reason)
 		}
 	}
-	t, err := c.BuildTRel(steps, 10*time.Second)
+	feasTimeout := 10 * time.Second
+	if c.SkipStepFeas {
+		feasTimeout = 0
+	}
+	t, err := c.BuildTRel(steps, feasTimeout)
 	if err != nil {
 		in.Close()
 		return nil, err
@@ -213,6 +220,16 @@ func (lr *LoopRun) grace(timeout time.Duration) time.Duration {
 // solve runs one query built from terms (adds side conditions).
 func (lr *LoopRun) solve(name string, asserts []*smt.Term, values []*smt.Term, timeout time.Duration) smt.Result {
 	full := smt.And(asserts...)
+	if lr.Sub != nil {
+		if sub := lr.Sub(full); len(sub) > 0 {
+			full = smt.Subst(full, sub)
+			nv := make([]*smt.Term, len(values))
+			for i, v := range values {
+				nv[i] = smt.Subst(v, sub)
+			}
+			values = nv
+		}
+	}
 	// propagate top-level equalities variable = constant through the formula
 	// (folds string operations on fixed token data before the solver sees them)
 	for round := 0; round < 3 && full.Op == "and"; round++ {
